@@ -476,3 +476,9 @@ setitem = [
 for _c in setitem:
     _c.returns_self = True
 CONTRACTS += setitem
+
+
+def EXTRA():
+    # the read-only operations do not update their table in place (asking twice gives the same answer)
+    from jvc import effects
+    return effects.check_no_inplace_on_borrowed([S + "pack", S + "get_time_with_phase", S + "median_period", S + "_apply", S + "__getitem__", S + "copy"], PROPERTY)
